@@ -2025,7 +2025,11 @@ def _search_reentrant(ctx):
     for t in range(16 if ctx.tier == 'thorough' else 8):
         kind = kinds[t % 4]
         ct = CTYPES[(5 * t + 2) % len(CTYPES)]
-        ps = [S.ParamVar('g', 'p%d' % k, ct, value=rand_value(rng, ct), persistent=True, default=rand_value(rng, ct)) for k in range(2)]
+        # systematic, not left to the random draws: the request made in between CHANGES the answer to the repeated question
+        # (not stored -> store -> stored; stored -> clear -> not stored), so a reply handed to the wrong handler is visible
+        other = ['store', 'clear'][(t // 4) % 2]
+        ps = [S.ParamVar('g', 'p%d' % k, ct, value=rand_value(rng, ct), persistent=True, default=rand_value(rng, ct),
+                         stored=rand_value(rng, ct) if other == 'clear' and k == 0 else None) for k in range(2)]
         dev = S.CrazyflieDevice(protocol_version=5, param_toc=ps)
         r = Real(dev, {}, routing, needs_resending=bool(t & 4))
         _pump(r)
@@ -2050,7 +2054,6 @@ def _search_reentrant(ctx):
             getattr(r.param, fns[k])('g.p%d' % i, cb)
         # the callback of the first request stores / clears and then asks the same question about the same parameter again,
         # whose callback in turn asks about the other parameter
-        other = rng.choice(['store', 'clear'])
         script = [(other, 0, ()), (kind, 0, [(rng.choice(kinds), 1, ())])]
         if t % 2:
             script.insert(0, (rng.choice(kinds), 1, ()))
